@@ -10,7 +10,10 @@
 use crate::rng::{hex, unhex, Rng};
 use crate::Ctx;
 use rpki::ca::idexchange::{ChildRequest, Handle, ParentResponse, PublisherRequest, RepositoryResponse, ServiceUri};
+use rpki::ca::provisioning as prov;
 use rpki::ca::publication as publ;
+use rpki::repository::resources::{Addr, AsBlock, AsBlocks, IpBlock, IpBlocks, Ipv4Blocks, Ipv6Blocks, ResourceSet};
+use rpki::resources::Asn;
 use std::str::FromStr;
 use rpki::rrdp::Hash;
 use rpki::uri;
@@ -155,8 +158,108 @@ fn exec_idx(toks: &[&str]) -> String {
     })().unwrap_or_else(|| "bad-op".into())
 }
 
+
+//------------ RFC 6492 -------------------------------------------------------------------------------
+//
+// op:  prvx <sender> <recipient> list
+//      prvx <s> <r> listr <class;class;…|->       prvx <s> <r> issuer <class>     (exactly one issued certificate)
+//      prvx <s> <r> issue <name>,<las>,<lv4>,<lv6>,<csr>
+//      prvx <s> <r> revoke|revoker <name>,<ski>    prvx <s> <r> err <status>
+//   class  = <name>,<cert_url>,<as>,<v4>,<v6>,<notafter unix>,<issued+issued…|->,<issuer cert>
+//   issued = <cert_url>~<las>~<lv4>~<lv6>~<cert>
+//   resource set = `-` (empty) or lo-hi/lo-hi/… (decimal; IPv4 as 32-bit numbers); in a limit `*` = not given
+//   names, handles, URLs, certificates and requests in hex (`e` empty).  Built with the public constructors,
+//   resource sets through `from_iter`.   => <hex of the document> <same|differs|err>   (parsed back == built)
+
+fn p_blocks(s: &str) -> Option<Vec<(u128, u128)>> {
+    if s == "-" { return Some(vec![]) }
+    s.split('/').map(|b| { let (l, h) = b.split_once('-')?; Some((l.parse().ok()?, h.parse().ok()?)) }).collect()
+}
+fn as_of(s: &str) -> Option<AsBlocks> {
+    Some(p_blocks(s)?.into_iter().map(|(a, b)| AsBlock::from((Asn::from_u32(a as u32), Asn::from_u32(b as u32)))).collect())
+}
+fn v4_of(s: &str) -> Option<Ipv4Blocks> {
+    let c: IpBlocks = p_blocks(s)?.into_iter().map(|(a, b)| IpBlock::from((Addr::from_bits(a << 96), Addr::from_bits((b << 96) | ((1u128 << 96) - 1))))).collect();
+    Some(Ipv4Blocks::from(c))
+}
+fn v6_of(s: &str) -> Option<Ipv6Blocks> {
+    let c: IpBlocks = p_blocks(s)?.into_iter().map(|(a, b)| IpBlock::from((Addr::from_bits(a), Addr::from_bits(b)))).collect();
+    Some(Ipv6Blocks::from(c))
+}
+fn limit_of(a: &str, v4: &str, v6: &str) -> Option<prov::RequestResourceLimit> {
+    let mut l = prov::RequestResourceLimit::new();
+    if a != "*" { l.with_asn(as_of(a)?); }
+    if v4 != "*" { l.with_ipv4(v4_of(v4)?); }
+    if v6 != "*" { l.with_ipv6(v6_of(v6)?); }
+    Some(l)
+}
+fn cert_of(s: &str) -> Option<rpki::repository::Cert> { rpki::repository::Cert::decode(bytes::Bytes::from(unhx(s)?)).ok() }
+fn rsync_of(s: &str) -> Option<uri::Rsync> { uri::Rsync::from_slice(&unhx(s)?).ok() }
+fn class_name_of(s: &str) -> Option<prov::ResourceClassName> { Some(prov::ResourceClassName::from(p_str(s)?)) }
+fn time_of(s: &str) -> Option<rpki::repository::x509::Time> {
+    use chrono::TimeZone;
+    chrono::Utc.timestamp_opt(s.parse().ok()?, 0).single().map(rpki::repository::x509::Time::new)
+}
+fn issued_of(s: &str) -> Option<prov::IssuedCert> {
+    let f: Vec<&str> = s.split('~').collect();
+    let [u, a, v4, v6, c] = f.as_slice() else { return None };
+    Some(prov::IssuedCert::new(rsync_of(u)?, limit_of(a, v4, v6)?, cert_of(c)?))
+}
+struct ClassParts { name: prov::ResourceClassName, set: ResourceSet, na: rpki::repository::x509::Time, issued: Vec<prov::IssuedCert>, signing: prov::SigningCert }
+fn class_of(s: &str) -> Option<ClassParts> {
+    let f: Vec<&str> = s.split(',').collect();
+    let [name, url, a, v4, v6, na, issued, issuer] = f.as_slice() else { return None };
+    let issued: Vec<prov::IssuedCert> = if *issued == "-" { vec![] } else { issued.split('+').map(issued_of).collect::<Option<_>>()? };
+    Some(ClassParts { name: class_name_of(name)?, set: ResourceSet::new(as_of(a)?, v4_of(v4)?, v6_of(v6)?), na: time_of(na)?, issued,
+        signing: prov::SigningCert::new(rsync_of(url)?, cert_of(issuer)?) })
+}
+
+fn exec_prvx(toks: &[&str]) -> String {
+    (|| -> Option<String> {
+        let [s, r, kind, rest @ ..] = toks else { return None };
+        let (s, r) = (p_handle(s)?, p_handle(r)?);
+        let m = match (*kind, rest) {
+            ("list", []) => prov::Message::list(s, r),
+            ("listr", [cs]) => {
+                let classes: Vec<prov::ResourceClassEntitlements> = if *cs == "-" { vec![] } else {
+                    cs.split(';').map(|c| class_of(c).map(|p| prov::ResourceClassEntitlements::new(p.name, p.set, p.na, p.issued, p.signing))).collect::<Option<_>>()? };
+                prov::Message::list_response(s, r, prov::ResourceClassListResponse::new(classes))
+            }
+            ("issuer", [c]) => {
+                let mut p = class_of(c)?;
+                if p.issued.len() != 1 { return None }
+                prov::Message::issue_response(s, r, prov::IssuanceResponse::new(p.name, p.set, p.na, p.issued.remove(0), p.signing))
+            }
+            ("issue", [q]) => {
+                let f: Vec<&str> = q.split(',').collect();
+                let [name, a, v4, v6, csr] = f.as_slice() else { return None };
+                let csr = rpki::ca::csr::RpkiCaCsr::decode(unhx(csr)?.as_slice()).ok()?;
+                prov::Message::issue(s, r, prov::IssuanceRequest::new(class_name_of(name)?, limit_of(a, v4, v6)?, csr))
+            }
+            ("revoke", [q]) | ("revoker", [q]) => {
+                let (name, ski) = q.split_once(',')?;
+                let k = rpki::crypto::KeyIdentifier::try_from(unhx(ski)?.as_slice()).ok()?;
+                let req = prov::RevocationRequest::new(class_name_of(name)?, k);
+                if *kind == "revoke" { prov::Message::revoke(s, r, req) } else { prov::Message::revoke_response(s, r, prov::RevocationResponse::from(&req)) }
+            }
+            ("err", [st]) => {
+                use prov::NotPerformedResponse as N;
+                let n = match *st { "1101" => N::err_1101(), "1102" => N::err_1102(), "1103" => N::err_1103(), "1104" => N::err_1104(), "1201" => N::err_1201(),
+                    "1202" => N::err_1202(), "1203" => N::err_1203(), "1204" => N::err_1204(), "1301" => N::err_1301(), "1302" => N::err_1302(), "2001" => N::err_2001(), _ => return None };
+                prov::Message::not_performed_response(s, r, n).ok()?
+            }
+            _ => return None,
+        };
+        let mut doc = Vec::new();
+        m.write_xml(&mut doc).ok()?;
+        let back = match prov::Message::decode(doc.as_slice()) { Ok(b) => if b == m { "same" } else { "differs" }, Err(_) => "err" };
+        Some(format!("{} {}", hex(&doc), back))
+    })().unwrap_or_else(|| "bad-op".into())
+}
+
 pub fn exec(toks: &[&str]) -> String {
     if toks.first() == Some(&"idx") { return exec_idx(&toks[1..]) }
+    if toks.first() == Some(&"prvx") { return exec_prvx(&toks[1..]) }
     let Some(m) = build(&toks[1..]) else { return "bad-op".into() };
     let mut doc = Vec::new();
     if m.write_xml(&mut doc).is_err() { return "write-err".into() }
@@ -217,10 +320,53 @@ fn gen_idx(ctx: &mut Ctx, rng: &mut Rng, n: usize) {
     }
 }
 
+fn res_text(rng: &mut Rng, width: u32) -> String {
+    // a few blocks in any order, overlapping or adjacent now and then: `from_iter` makes the set
+    let k = match rng.below(6) { 0 => 0, 1 => 1, _ => rng.range(1, 5) };
+    let full: u128 = if width == 32 { u32::MAX as u128 } else { u128::MAX };
+    let mut v = Vec::new();
+    for _ in 0..k {
+        let a = match rng.below(6) { 0 => 0, 1 => full, 2 => rng.below(70000) as u128, _ => rng.u128() & full };
+        let a = if width != 32 && rng.chance(1, 6) { (0xffffu128 << 32) | (rng.next() as u32 as u128) } else { a };
+        let b = match rng.below(4) { 0 => a, 1 => a | ((1u128 << rng.below(width as u64)) - 1) & full, 2 => a.saturating_add(rng.below(1000) as u128).min(full), _ => a.saturating_add(rng.next() as u128).min(full) };
+        let a = if rng.chance(1, 3) { a & !((1u128 << rng.below(width as u64)) - 1) } else { a };
+        v.push(format!("{}-{}", a.min(b), a.max(b)));
+    }
+    if v.is_empty() { "-".into() } else { v.join("/") }
+}
+
+fn gen_prvx(ctx: &mut Ctx, rng: &mut Rng, n: usize) {
+    let fix = crate::c11::fixtures(rng);
+    if fix.certs.is_empty() || fix.csrs.is_empty() { return }
+    let certs: Vec<String> = fix.certs.iter().map(|c| hx(c.to_captured().as_slice())).collect();
+    let csrs: Vec<String> = fix.csrs.iter().map(|c| hx(c.to_captured().as_slice())).collect();
+    let name = |rng: &mut Rng| match rng.below(5) { 0 => hx(b"all"), 1 => hx(b"0"), 2 => hx(b"a&b <c>"), 3 => hx(rng.next().to_string().as_bytes()), _ => hx(format!("class-{}", rng.below(100)).as_bytes()) };
+    let lim = |rng: &mut Rng, w: u32| if rng.bool() { "*".to_string() } else { res_text(rng, w) };
+    let url = |rng: &mut Rng| hx(&uri_of(rng));
+    let na = |rng: &mut Rng| match rng.below(5) { 0 => 0i64, 1 => 253_402_300_799, 2 => -62_135_596_800 + rng.below(1000) as i64 * 86_400 + 31_622_400, 3 => 2_524_608_000 - rng.below(3) as i64, _ => rng.below(4_000_000_000) as i64 };
+    let issued = |rng: &mut Rng| format!("{}~{}~{}~{}~{}", url(rng), lim(rng, 32), lim(rng, 32), lim(rng, 128), rng.pick(&certs));
+    let class = |rng: &mut Rng, k: usize| format!("{},{},{},{},{},{},{},{}", name(rng), url(rng), res_text(rng, 32), res_text(rng, 32), res_text(rng, 128), na(rng),
+        if k == 0 { "-".to_string() } else { (0..k).map(|_| issued(rng)).collect::<Vec<_>>().join("+") }, rng.pick(&certs));
+    for _ in 0..n {
+        let (s, r) = (hx(handle_of(rng).as_bytes()), hx(handle_of(rng).as_bytes()));
+        match rng.below(8) {
+            0 => ctx.case(&format!("prvx {} {} list", s, r)),
+            1 | 2 => { let k = rng.below(4) as usize; let cs: Vec<String> = (0..k).map(|_| { let j = rng.below(3) as usize; class(rng, j) }).collect();
+                       ctx.case(&format!("prvx {} {} listr {}", s, r, if cs.is_empty() { "-".into() } else { cs.join(";") })) }
+            3 => ctx.case(&format!("prvx {} {} issuer {}", s, r, class(rng, 1))),
+            4 => ctx.case(&format!("prvx {} {} issue {},{},{},{},{}", s, r, name(rng), lim(rng, 32), lim(rng, 32), lim(rng, 128), rng.pick(&csrs))),
+            5 => ctx.case(&format!("prvx {} {} revoke {},{}", s, r, name(rng), hx(&match rng.below(4) { 0 => vec![0u8; 20], 1 => vec![0xff; 20], 2 => vec![0xfb; 20], _ => rng.bytes(20) }))),
+            6 => ctx.case(&format!("prvx {} {} revoker {},{}", s, r, name(rng), hx(&rng.bytes(20)))),
+            _ => ctx.case(&format!("prvx {} {} err {}", s, r, rng.pick(&[1101, 1102, 1103, 1104, 1201, 1202, 1203, 1204, 1301, 1302, 2001]))),
+        }
+    }
+}
+
 pub fn generate_into(ctx: &mut Ctx) {
     let mut rng = Rng::new(Rng::new(ctx.seed ^ 0xC11B).next());
     let n = if ctx.tier_thorough { 4000 } else { 400 };
     gen_idx(ctx, &mut rng, n);
+    gen_prvx(ctx, &mut rng, n / 2);
     ctx.case("pubx lq");
     ctx.case("pubx ok");
     ctx.case("pubx delta -");
